@@ -108,7 +108,7 @@ func verifC04Validate() {
 	verifReach("done")
 }
 
-// (a'') the initial checking deadline.
+// (a”) the initial checking deadline.
 func verifC04InitialDeadline() {
 	dt, ft := verifDur(), verifDur()
 	lite, explicit := verifBool(), verifBool()
